@@ -37,13 +37,11 @@ def supTerm (s : State) (full : String) : State :=
                 else s
     | none => s
 
-def emitAgentsInfo (s : State) : State :=
-  let ext := s.agents.filter (·.ext)
-  let int := s.agents.filter (!·.ext)
-  (ext ++ int).foldl (fun s a =>
-    s.emit s!"ev extensionInit:{a.name}:{extStateName a.st}:{subsStr a.subs}:{if a.errType == "" then "-" else a.errType}") s
-
 /-! ### G4: what FastInvoke's goroutine does when HandleInvoke returns -/
+
+/-- the body FastInvoke's goroutine sends when the handler failed: the cached init-error response if
+    there is one, else the platform's JSON error naming the recorded fault -/
+def failureBody (s : State) (errType : String) : String := s.cached.getD s!"errjson:{errType}"
 
 def invokeReturned (s : State) (ok : Bool) (resetReceived : Bool) (errType : String) : State :=
   let s := { s with orch := .idle, curInv := none }
@@ -51,7 +49,7 @@ def invokeReturned (s : State) (ok : Bool) (resetReceived : Bool) (errType : Str
   if ok then { s with doneChan := some "ok" }
   else if resetReceived then s
   else
-    let body := s.cached.getD s!"errjson:{errType}"
+    let body := failureBody s errType
     match currentId s with
     | none => { s with crashed := true }     -- trySendDefaultErrorResponse: log.Panicf
     | some k =>
@@ -84,14 +82,22 @@ def continueInvoke (s : State) : State :=
 
 /-! ### doRuntimeDomainInit -/
 
-/-- the deferred calls of doRuntimeDomainInit and what its caller does with the result -/
-def initFinish (s : State) (ph : Phase) (ok : Bool) (status : String) (e : Option CErr) : State :=
+/-- one status line of `logAgentsInitStatus` -/
+def agentInfoLine (a : Agent) : String :=
+  s!"ev extensionInit:{a.name}:{extStateName a.st}:{subsStr a.subs}:{if a.errType == "" then "-" else a.errType}"
+
+/-- the deferred calls of doRuntimeDomainInit, in the order Go runs them (LIFO): init-runtime-done
+    (only if the runtime had been started), one status line per extension, init-report -/
+def initTailEvents (s : State) (ph : Phase) (status : String) : State :=
   let s := if s.rtDoneReg then
       s.emit s!"ev initRuntimeDone:{ph.str}:{status}:{if status == "success" then "-" else s.fatal.getD "Runtime.Unknown"}"
     else s
-  let s := emitAgentsInfo s
-  let s := (s.emit s!"ev initReport:{ph.str}")
-  let s := { s with rtDoneReg := false }
+  let s := ((s.agents.filter (·.ext)) ++ (s.agents.filter (!·.ext))).foldl (fun s a => s.emit (agentInfoLine a)) s
+  s.emit s!"ev initReport:{ph.str}"
+
+/-- the deferred calls of doRuntimeDomainInit and what its caller does with the result -/
+def initFinish (s : State) (ph : Phase) (ok : Bool) (status : String) (e : Option CErr) : State :=
+  let s := { (initTailEvents s ph status) with rtDoneReg := false }
   match ph with
   | .init =>
     if ok then { s with orch := .idle, initChan := .closed }
@@ -215,22 +221,25 @@ def finishShutdown (s : State) (k : ShutKind) (from_ : Nat) : State :=
 def enterGrace (s : State) (k : ShutKind) : State :=
   { s with orch := .sGrace k, timers := s.timers ++ ["grace"] }
 
+/-- what `shutdownAgents` does for one external extension -/
+def shutdownOne (s : State) (a : Agent) : State :=
+  let full := extFull a.name s.gen
+  match procByFull s full with
+  | none => s                                   -- failed to launch: skipped
+  | some p =>
+    if !p.chanCreated then s else
+    if a.subs.contains .shutdown then
+      -- subscribed: Release() (the SHUTDOWN event), then wait for its exit or the deadline
+      setAgent { s with awaitingExit := s.awaitingExit ++ [full], agentWaits := s.agentWaits ++ [full] } { a with flag := true }
+    else { s with killQueue := s.killQueue ++ [full] }   -- not subscribed: killed without an event
+
 def shutdownAgents (s : State) (k : ShutKind) : State :=
   let s := { s with renderer := .shutdown (reasonOf k), awaitingExit := [], agentWaits := [] }
   let exts := s.agents.filter (·.ext)
-  let s := exts.foldl (fun s a =>
-    let full := s!"extension-{a.name}-{s.gen}"
-    match procByFull s full with
-    | none => s
-    | some p =>
-      if !p.chanCreated then s else
-      if a.subs.contains .shutdown then
-        setAgent { s with awaitingExit := s.awaitingExit ++ [full], agentWaits := s.agentWaits ++ [full] } { a with flag := true }
-      else { s with killQueue := s.killQueue ++ [full] }) s
-  { s with orch := .sAgents k }
+  { (exts.foldl shutdownOne s) with orch := .sAgents k }
 
-def beginShutdown (s : State) (k : ShutKind) : State :=
-  let s := { s with shuttingDown := true, fatal := none }
+/-- `shutdown()` after it has marked the context as shutting down and dropped the first fatal error -/
+def shutdownBody (s : State) (k : ShutKind) : State :=
   if s.agents.length == 0 then
     let s := match procByFull s (rtFull s) with
       | some p => if p.chanCreated then supKill s p.full else s
@@ -241,6 +250,9 @@ def beginShutdown (s : State) (k : ShutKind) : State :=
     match procByFull s (rtFull s) with
     | some p => if p.chanCreated then { (supTerm s p.full) with orch := .sRuntime k } else shutdownAgents s k
     | none => shutdownAgents s k
+
+def beginShutdown (s : State) (k : ShutKind) : State :=
+  shutdownBody { s with shuttingDown := true, fatal := none } k
 
 /-- who asked for the shutdown that is running (kept in the head of `queueRun`) -/
 def shutResume (s : State) (from_ : Nat) : Option State :=
